@@ -1,6 +1,6 @@
 (* ReparseCalm.v — which written lines are written the same again: fusing text runs is invisible to the
    writer; a structural sufficient condition ([calm], [gcalm]) for the byte-level fixpoint of ReparseText.v. *)
-From IweV Require Import Str Text Ast RelPath Arena Project SectionsSpec Check_Norm NormFacts BuilderFacts
+From IweV Require Import Str Text Ast RelPath RelPathLaws Arena Project SectionsSpec Check_Norm NormFacts BuilderFacts
   SectionsFacts HistoryText Reparse ReparseFacts ReparseText.
 From Coq Require Import Lia.
 Local Open Scope string_scope.
@@ -55,7 +55,7 @@ Proof.
 Qed.
 Lemma lead_kind_safe ctx dir o l : lead_kind_stable ctx dir o l = is_nil l || negb (is_nil (merge_strs l)).
 Proof.
-  unfold lead_kind_stable, line0, normalize_inlines, to_ginlines, rr_inlines.
+  unfold lead_kind_stable, line0, rel_inlines, normalize_inlines, to_ginlines, rr_inlines.
   assert (E : forall A B (f : A -> B) m, is_nil (map f m) = is_nil m) by (intros A B f []; reflexivity).
   rewrite !E, !merge_nil, forallb_map_local.
   destruct l as [|x l]; [reflexivity|]. cbn [is_nil orb]. rewrite (forallb_ext_local _ no_text).
@@ -77,8 +77,9 @@ Section Calm.
     end.
 
   (* re-read and url clean-up, without / with the title refresh *)
-  Definition G (i : inline) : inline := to_ginline (rr_inline o i).
-  Definition NG (i : inline) : inline := normalize_inline ctx (G i).
+  Definition G (i : inline) : inline := to_ginline dir (rr_inline o i).
+  (* ... and written relative to the note again *)
+  Definition NG (i : inline) : inline := rel_inline dir (normalize_inline ctx (G i)).
 
   Lemma md_list (h r : inline -> inline) l :
     (forall s, h (Str s) = Str s) -> Forall (fun i => inline_md o (h (r i)) = inline_md o i) l ->
@@ -132,21 +133,70 @@ Section Calm.
       + apply nolink_list; [reflexivity|]. apply Forall_forall. intros x Hx. now apply IH, H.
   Qed.
 
+  (* an inline without links is written as it is *)
+  Lemma nolink_rel : forall i, nolink i = true -> rel_inline dir i = i.
+  Proof.
+    assert (HL : forall l, Forall (fun i => nolink i = true -> rel_inline dir i = i) l ->
+                 forallb nolink l = true -> map (rel_inline dir) l = l).
+    { induction 1 as [|x l Hx _ IH]; intros H; [reflexivity|]. cbn [forallb] in H. apply andb_prop in H as [H1 H2].
+      cbn [map]. now rewrite Hx, IH. }
+    apply (inline_ind' (fun i => nolink i = true -> rel_inline dir i = i)); try reflexivity.
+    - intros l IH H. cbn [nolink] in H. cbn [rel_inline]. now rewrite HL.
+    - intros l IH H. cbn [nolink] in H. cbn [rel_inline]. now rewrite HL.
+    - intros l IH H. cbn [nolink] in H. cbn [rel_inline]. now rewrite HL.
+    - intros u t lt l _ H. discriminate.
+    - intros u t l IH H. cbn [nolink] in H. cbn [rel_inline]. now rewrite HL.
+  Qed.
+  Lemma nolink_rel_list l : forallb nolink l = true -> map (rel_inline dir) l = l.
+  Proof.
+    induction l as [|x l IH]; intros H; [reflexivity|]. cbn [forallb] in H. apply andb_prop in H as [H1 H2].
+    cbn [map]. now rewrite nolink_rel, IH.
+  Qed.
+
+  Lemma nolink_children l : forallb nolink l = true ->
+    forallb nolink (map (to_ginline dir) (merge_strs (map (rr_inline o) l))) = true.
+  Proof.
+    intros H. apply nolink_list; [reflexivity|]. apply Forall_forall. intros x Hx.
+    rewrite forallb_forall in H. now apply (nolink_G x (H x Hx)).
+  Qed.
+
   Lemma nolink_children_md l : forallb nolink l = true ->
-    inlines_md o (map to_ginline (merge_strs (map (rr_inline o) l))) = inlines_md o l.
+    inlines_md o (map (to_ginline dir) (merge_strs (map (rr_inline o) l))) = inlines_md o l.
   Proof.
     intros H. apply md_list; [reflexivity|]. apply Forall_forall. intros x Hx.
     rewrite forallb_forall in H. now apply (nolink_G x (H x Hx)).
   Qed.
 
-  (* a wiki link is written `[[wiki_url url]]` and read back with one `.md` taken off *)
-  Definition url_kept (url : string) : bool :=
-    if is_ref_url url then is_ref_url (wiki_url url) && String.eqb (strip_md (wiki_url url)) url else true.
+  (* a note link written with the url [w] (the destination plus the extension) is read back from the note's
+     directory as the key of a note, and that key is written relative to the note as [url] again *)
+  Definition key_kept (w url : string) : bool :=
+    is_ref_url w && is_ref_url (from_rel_link_url w dir) &&
+    String.eqb (to_rel_link_url (key_name (from_rel_link_url w dir)) dir) url.
 
-  (* the line is written the same again: a note link is read back with the url it was written from
-     (`strip_md (ref_url url ext) = url`, which holds for the extensions `.md` and none:
-     RelPathFacts.strip_md_ref_url), regular note links carry the
-     current title as their text; link texts and image texts hold no link *)
+  (* every url the projector writes for a note link is kept: [url] = the path of the key K = [from_rel_link_url u dir]
+     relative to [dir], written with the extension `.md` or none, is read back as K (RelPathLaws.C15_rewrite_written)
+     and K is written as [url] again - as long as the written text and K read as note urls *)
+  Lemma key_kept_written u ext :
+    ext = MD \/ ext = "" ->
+    let K := from_rel_link_url u dir in
+    let url := to_rel_link_url K dir in
+    is_ref_url (ref_url url ext) = true -> is_ref_url K = true ->
+    key_kept (ref_url url ext) url = true.
+  Proof.
+    intros He K url H1 H2. unfold key_kept, key_name. rewrite H1.
+    pose proof (C15_rewrite_written u dir ext He) as E. cbv zeta in E. fold K in E. fold url in E.
+    rewrite E, H2. cbn [andb]. apply String.eqb_refl.
+  Qed.
+
+  (* a wiki link is written `[[wiki_url url]]` *)
+  Definition url_kept (url : string) : bool :=
+    if is_ref_url url then key_kept (wiki_url url) url else true.
+
+  (* the line is written the same again: a note link is read back as the key of the note it names from
+     the note's directory and written relative to the note with the url it was written with ([key_kept]:
+     the url is one the projector writes - RelPathLaws.rewrite_written - and the extension is one iwe
+     reads back: `.md` or none), regular note links carry the
+     current title of that note as their text; link texts and image texts hold no link *)
   Fixpoint calm (i : inline) {struct i} : bool :=
     match i with
     | Emph l | Strong l | Strike l => forallb calm l
@@ -157,8 +207,11 @@ Section Calm.
         | Regular =>
             written_autolink o url l ||
             (if is_ref_url url then
-               is_ref_url (ref_url url (refs_extension o)) && String.eqb (strip_md (ref_url url (refs_extension o))) url &&
-               match ctx (key_name url) with Some t => String.eqb (inlines_md o l) t | None => true end
+               key_kept (ref_url url (refs_extension o)) url &&
+               match ctx (key_name (from_rel_link_url (ref_url url (refs_extension o)) dir)) with
+               | Some t => String.eqb (inlines_md o l) t
+               | None => true
+               end
              else true)
         | _ => url_kept url
         end
@@ -168,56 +221,65 @@ Section Calm.
   Lemma calm_md : forall i, calm i = true -> inline_md o (NG i) = inline_md o i.
   Proof.
     apply (inline_ind' (fun i => calm i = true -> inline_md o (NG i) = inline_md o i)); try reflexivity.
-    - intros l IH H. cbn [calm] in H. unfold NG, G. cbn [rr_inline to_ginline normalize_inline inline_md].
-      rewrite !inline_md_go, map_map. f_equal. f_equal.
-      apply (md_list (fun x => normalize_inline ctx (to_ginline x))); [reflexivity|].
+    - intros l IH H. cbn [calm] in H. unfold NG, G. cbn [rr_inline to_ginline normalize_inline rel_inline inline_md].
+      rewrite !inline_md_go, !map_map. f_equal. f_equal.
+      apply (md_list (fun x => rel_inline dir (normalize_inline ctx (to_ginline dir x)))); [reflexivity|].
       rewrite forallb_forall in H. rewrite Forall_forall in IH. apply Forall_forall. intros x Hx. now apply IH, H.
-    - intros l IH H. cbn [calm] in H. unfold NG, G. cbn [rr_inline to_ginline normalize_inline inline_md].
-      rewrite !inline_md_go, map_map. f_equal. f_equal.
-      apply (md_list (fun x => normalize_inline ctx (to_ginline x))); [reflexivity|].
+    - intros l IH H. cbn [calm] in H. unfold NG, G. cbn [rr_inline to_ginline normalize_inline rel_inline inline_md].
+      rewrite !inline_md_go, !map_map. f_equal. f_equal.
+      apply (md_list (fun x => rel_inline dir (normalize_inline ctx (to_ginline dir x)))); [reflexivity|].
       rewrite forallb_forall in H. rewrite Forall_forall in IH. apply Forall_forall. intros x Hx. now apply IH, H.
-    - intros l IH H. cbn [calm] in H. unfold NG, G. cbn [rr_inline to_ginline normalize_inline inline_md].
-      rewrite !inline_md_go, map_map. f_equal. f_equal.
-      apply (md_list (fun x => normalize_inline ctx (to_ginline x))); [reflexivity|].
+    - intros l IH H. cbn [calm] in H. unfold NG, G. cbn [rr_inline to_ginline normalize_inline rel_inline inline_md].
+      rewrite !inline_md_go, !map_map. f_equal. f_equal.
+      apply (md_list (fun x => rel_inline dir (normalize_inline ctx (to_ginline dir x)))); [reflexivity|].
       rewrite forallb_forall in H. rewrite Forall_forall in IH. apply Forall_forall. intros x Hx. now apply IH, H.
     - (* link *)
       intros url t lt l _ H. cbn [calm] in H. apply andb_prop in H as [Hn H].
       pose proof (nolink_children_md l Hn) as Hc.
+      pose proof (nolink_rel_list _ (nolink_children l Hn)) as Hr.
       unfold NG, G. destruct lt.
       + (* regular *)
         cbn [rr_inline]. destruct (written_autolink o url l) eqn:Ea.
         * unfold written_autolink in Ea. apply andb_prop in Ea as [Er Ee]. apply negb_true_iff in Er.
-          cbn [to_ginline map]. rewrite Er. cbn [normalize_inline]. rewrite Er. cbn [inline_md]. rewrite !inline_md_go.
+          cbn [to_ginline map]. rewrite Er. cbn [normalize_inline]. rewrite Er. cbn [rel_inline map]. rewrite Er.
+          cbn [inline_md]. rewrite !inline_md_go.
           rewrite Ee, Er. unfold inlines_md. cbn [map sconcat inline_md]. rewrite sapp_nil_r, eq_ignore_refl. reflexivity.
         * cbn [orb] in H. unfold rr_url. destruct (is_ref_url url) eqn:Er.
-          -- apply andb_prop in H as [H H3]. apply andb_prop in H as [H1 H2]. apply String.eqb_eq in H2.
-             cbn [to_ginline]. rewrite H1, H2. cbn [normalize_inline]. rewrite Er.
-             cbn [inline_md]. rewrite Er. cbn [negb andb]. rewrite !inline_md_go.
-             destruct (ctx (key_name url)) as [ti|].
-             ++ apply String.eqb_eq in H3. unfold inlines_md at 1. cbn [map sconcat inline_md]. now rewrite sapp_nil_r, H3.
-             ++ now rewrite Hc.
-          -- cbn [to_ginline]. rewrite Er. cbn [normalize_inline]. rewrite Er. cbn [inline_md]. rewrite Er.
+          -- apply andb_prop in H as [H H3]. unfold key_kept in H. apply andb_prop in H as [H H2].
+             apply andb_prop in H as [H1 Hk]. apply String.eqb_eq in H2.
+             cbn [to_ginline]. rewrite H1. cbn [normalize_inline]. rewrite Hk.
+             destruct (ctx (key_name (from_rel_link_url (ref_url url (refs_extension o)) dir))) as [ti|].
+             ++ cbn [rel_inline map]. rewrite Hk, H2. cbn [inline_md]. rewrite Er. cbn [negb andb]. rewrite !inline_md_go.
+                apply String.eqb_eq in H3. now rewrite sapp_nil_r, H3.
+             ++ cbn [rel_inline]. rewrite Hk, H2, Hr. cbn [inline_md]. rewrite Er. cbn [negb andb]. rewrite !inline_md_go.
+                now rewrite Hc.
+          -- cbn [to_ginline]. rewrite Er. cbn [normalize_inline]. rewrite Er. cbn [rel_inline]. rewrite Er, Hr.
+             cbn [inline_md]. rewrite Er.
              rewrite !inline_md_go, Hc. reflexivity.
       + (* wiki *)
         cbn [rr_inline to_ginline map]. unfold url_kept in H. destruct (is_ref_url url) eqn:Er.
-        * apply andb_prop in H as [H1 H]. apply String.eqb_eq in H. rewrite H1, H. cbn [normalize_inline]. rewrite Er. reflexivity.
+        * unfold key_kept in H. apply andb_prop in H as [H H2]. apply andb_prop in H as [H1 Hk]. apply String.eqb_eq in H2.
+          rewrite H1. cbn [normalize_inline]. rewrite Hk. cbn [rel_inline map]. rewrite Hk, H2. reflexivity.
         * assert (W : wiki_url url = url) by (unfold wiki_url; now rewrite Er).
-          rewrite !W, Er. cbn [normalize_inline]. rewrite Er. cbn [inline_md]. now rewrite W.
+          rewrite !W, Er. cbn [normalize_inline]. rewrite Er. cbn [rel_inline map]. rewrite Er. cbn [inline_md]. now rewrite W.
       + (* piped *)
         cbn [rr_inline to_ginline]. unfold url_kept in H. destruct (is_ref_url url) eqn:Er.
-        * apply andb_prop in H as [H1 H]. apply String.eqb_eq in H. rewrite H1, H. cbn [normalize_inline]. rewrite Er. cbn [inline_md].
+        * unfold key_kept in H. apply andb_prop in H as [H H2]. apply andb_prop in H as [H1 Hk]. apply String.eqb_eq in H2.
+          rewrite H1. cbn [normalize_inline]. rewrite Hk. cbn [rel_inline]. rewrite Hk, H2, Hr. cbn [inline_md].
           rewrite !inline_md_go, Hc. reflexivity.
         * assert (W : wiki_url url = url) by (unfold wiki_url; now rewrite Er).
-          rewrite !W, Er. cbn [normalize_inline]. rewrite Er. cbn [inline_md]. rewrite !inline_md_go, Hc. reflexivity.
+          rewrite !W, Er. cbn [normalize_inline]. rewrite Er. cbn [rel_inline]. rewrite Er, Hr. cbn [inline_md].
+          rewrite !inline_md_go, Hc. reflexivity.
     - (* image *)
-      intros url t l _ H. cbn [calm] in H. unfold NG, G. cbn [rr_inline to_ginline normalize_inline inline_md].
+      intros url t l _ H. cbn [calm] in H. unfold NG, G. cbn [rr_inline to_ginline normalize_inline rel_inline inline_md].
+      rewrite (nolink_rel_list _ (nolink_children l H)).
       rewrite !inline_md_go, (nolink_children_md l H). reflexivity.
   Qed.
 
   Theorem calm_line l : forallb calm l = true -> line_md_stable ctx dir o l = true.
   Proof.
-    intros H. unfold line_md_stable. apply String.eqb_eq. unfold line0, rr_inlines, normalize_inlines, to_ginlines.
-    rewrite map_map. apply (md_list (fun x => normalize_inline ctx (to_ginline x))); [reflexivity|].
+    intros H. unfold line_md_stable. apply String.eqb_eq. unfold line0, rr_inlines, rel_inlines, normalize_inlines, to_ginlines.
+    rewrite !map_map. apply (md_list (fun x => rel_inline dir (normalize_inline ctx (to_ginline dir x)))); [reflexivity|].
     rewrite forallb_forall in H. apply Forall_forall. intros x Hx. now apply (calm_md x), H.
   Qed.
 End Calm.
@@ -233,17 +295,17 @@ Section CalmBlocks.
   Definition para_calm (l : list inline) : bool :=
     if para_is_ref (rr_inlines o l)
     then String.eqb (inlines_md o (para_line ctx dir (rr_inlines o l))) (inlines_md o l)
-    else forallb (calm ctx o) l.
+    else forallb (calm ctx dir o) l.
 
   Fixpoint gcalm (b : gblock) {struct b} : bool :=
     match b with
     | GPlain l | GPara l => para_calm l
-    | GHeader _ l => forallb (calm ctx o) l
+    | GHeader _ l => forallb (calm ctx dir o) l
     | GQuote bs => forallb gcalm bs
     | GOList its | GBList its =>
         forallb (fun it => match it with
                            | [] => true
-                           | h :: rest => forallb (calm ctx o) (gline h) && forallb gcalm rest
+                           | h :: rest => forallb (calm ctx dir o) (gline h) && forallb gcalm rest
                            end) its
     | _ => true
     end.
@@ -290,7 +352,7 @@ Section CalmBlocks.
     forallb (fun it => item_safe it && forallb (safe_block o) (item_body it)) its = true ->
     forallb (fun it => match it with
                        | [] => true
-                       | h :: rest => forallb (calm ctx o) (gline h) && forallb gcalm rest
+                       | h :: rest => forallb (calm ctx dir o) (gline h) && forallb gcalm rest
                        end) its = true ->
     forallb (item_md_settled ctx dir o) its = true.
   Proof.
